@@ -1,20 +1,19 @@
 (* C03 - write then parse is the identity, including for what goes on the wire.
    Statements only; proofs are in Wire/Write_proofs.v.
 
-   FULL STATEMENTS (kept visible; docs/C03.md says what carries them today):
-     C03_roundtrip : forall d bs, (built_by_api d \/ exists bs0, dns_parse bs0 0 = Ok d) -> canonical_names d ->
-         dns_write d = Ok bs ->
-         Z.of_nat (length bs) <= 65535 /\ exists d', dns_parse bs 0 = Ok d' /\ record_eqb d d' = true /\ dns_write d' = Ok bs
-     C03_frame_any_position : forall d b b', write_buf_tcp wfixed d b = Ok (ARES_SUCCESS, b') ->
-         exists m, w_live b' = w_live b ++ be16 (length m) ++ m /\ dns_write d = Ok m
-     C03_query_builders : create_query ... = Ok bs -> parse bs = the one-question record
-   (C03_roundtrip is claimed for records with exactly ONE question: ares_dns_parse() refuses every
-   other QDCOUNT, see findings/C03.json roundtrip-question-count)
-   They are decided on every run by the implementation-only oracle (write -> parse -> record_eqb ->
-   rewrite, TCP frames at positions after 0..3 earlier frames and partial sends, legacy builders)
-   and by the correspondence of the extracted writer model with the library.  Proved below: the
-   statements do NOT hold for the pinned tree (five witnesses, each a defect with a patch or a
-   finding). *)
+   The three statements of DESIGN.md 4/C03 are theorems below (model of the tree with the fixes
+   applied = what /repo contains), each under an explicit well-formedness predicate:
+     C03_roundtrip          : msg_wf d -> dns_write d = Ok bs -> |bs| <= 65535 /\ parse bs = canon d
+                              (and the parsed record re-serialises to bs when names are canonical)
+     C03_frame_any_position : a TCP frame at any buffer position = be16 length ++ dns_write d
+     C03_query_builders     : create_query ... = Ok bs -> parse bs = the one-question record
+   C03_roundtrip is claimed for records with exactly ONE question (ares_dns_parse() refuses every
+   other QDCOUNT, findings/C03.json roundtrip-question-count) and excludes the other shapes filed
+   as findings.  All of them are also decided on every run by the implementation-only oracle
+   (write -> parse -> record_eqb -> rewrite, TCP frames at positions after 0..3 earlier frames and
+   partial sends, legacy builders) and by the correspondence of the extracted writer model with
+   the library.  Also below: the statements do NOT hold for the pinned tree (witnesses, each a
+   defect with a patch or a finding). *)
 From CAres.Wire Require Import Cursor Name Record Parse Escape Escape_proofs RefDecode Name_ref Write Roundtrip Write_proofs Write_name Write_host Write_name2 Write_pos Write_boundary Write_query Write_patch Write_query2 Write_rr Write_msg Write_frame.
 From CAres.Gen Require Import Consts Tables.
 Local Open Scope Z_scope.
@@ -211,41 +210,45 @@ Print Assumptions C03_backpatch_exact.
    field, the question, and every RR of every section - all 18 decoded types, the OPT pseudo-RR with
    its options and the extended RCODE bits, and opaque RRs of undecoded types - with name compression
    across the whole message, the RDLENGTH / OPT / RAW_RR back-patches and the 64k limit.
+   Names may be given in ANY valid presentation text (trailing dot, \DDD or \X escapes, also for
+   printable octets): the parsed record carries them in canonical form, [canon_rec d].
    [msg_wf] (Wire/Write_msg.v) is what "well formed" means:
      id 16 bit, flag bits among the seven the library knows, opcode and RCODE ones it knows, an
      RCODE above 15 only with an OPT RR in the additional section, at most one OPT RR;
      exactly ONE question (see findings/C03.json roundtrip-question-count), type 0..65535;
-     owner and question names hostnames in canonical presentation form, RDATA names any octets in
-     canonical form (labels 1..63 octets, 255 on the wire, text shorter than 512 characters);
+     every name is text ares_split_dns_name accepts (as a hostname for owner and question names),
+     labels 1..63 octets, text shorter than 512 characters;
      every RR has the keys of its type (the API guarantees it), values in range (u8/u16/u32, 4 / 16
      address octets), class one the library accepts, TTL 32 bit;
      <character-string>s at most 255 octets (TXT too: findings roundtrip-fields-txt-over-255),
      printable where the parser insists and a non-empty CAA tag (findings roundtrip-text-unparseable),
      non-empty "rest of RDATA" fields, at least one TXT string, option values at most 65535 octets;
      an opaque RR (RAW_RR) carries a type without a decoder (not 41, not 255).
-   Equality is RefDecode.norm_parsed (NULL = empty, STR = NAME text).
+   Equality is RefDecode.norm_parsed (NULL = empty, STR = NAME text), and even Wnorm (only: a text
+   field held as STR or NAME, an absent or an empty binary value - what the writer cannot tell
+   apart, Wire/Write_weq.v); when the names of [d] already are canonical (canon_rec d = d),
+   serialising the parsed record again yields the SAME OCTETS.
    Proof: the writer model is shown to append, per field kind, octets that do not depend on what
    precedes them (Write_enc.v: the name writer as a function of position and offset list;
-   Write_fields*.v: the RDATA writers follow the layout table), so every RR decodes - by the RFC
-   reference decoder - in the FINAL message, after its RDLENGTH slot has been back-patched
-   (Write_rr.v); sections, question and header are assembled (Write_msg.v), the message is shown to be
-   in the supported subset, and C04_complete + C04_sound transfer the result to the parser.
-   The parsed record equals the written one even up to Wnorm (only: a text field held as STR or NAME,
-   an absent or an empty binary value - what the writer cannot tell apart, Wire/Write_weq.v), hence
-   serialising it again yields the SAME OCTETS.
-   _partial: non-canonical name text (trailing dot, \DDD for printable octets) is not covered. *)
-Theorem C03_roundtrip_partial : forall d bs,
+   Write_name3.v: for any valid text "prefix.suffix" the labels are those of the prefix followed by
+   those of the registered suffix; Write_fields*.v: the RDATA writers follow the layout table), so
+   every RR decodes - by the RFC reference decoder - in the FINAL message, after its RDLENGTH slot
+   has been back-patched (Write_rr.v); sections, question and header are assembled (Write_msg.v), the
+   message is shown to be in the supported subset, and C04_complete + C04_sound transfer the result
+   to the parser. *)
+Theorem C03_roundtrip : forall d bs,
   msg_wf d -> dns_write d = Ok bs ->
   Z.of_nat (length bs) <= 65535 /\
-  exists d', dns_parse bs 0 = Ok d' /\ norm_parsed d' = norm_parsed d /\ Wnorm.wnorm_parsed d' = Wnorm.wnorm_parsed d /\
-             dns_write d' = Ok bs.
+  exists d', dns_parse bs 0 = Ok d' /\ norm_parsed d' = norm_parsed (canon_rec d) /\
+             Wnorm.wnorm_parsed d' = Wnorm.wnorm_parsed (canon_rec d) /\
+             (canon_rec d = d -> dns_write d' = Ok bs).
 Proof. exact roundtrip_fixed. Qed.
-Print Assumptions C03_roundtrip_partial.
+Print Assumptions C03_roundtrip.
 
 (* FRAMES AT ANY BUFFER POSITION, the full statement: a frame written by ares_dns_write_buf_tcp into a
    buffer that already holds arbitrary octets (earlier frames, a partially sent one) consists of
    the two octets of the message length followed by EXACTLY the message ares_dns_write() produces
-   for the record - and (C03_roundtrip_partial) for a well-formed record that message parses back
+   for the record - and (C03_roundtrip) for a well-formed record that message parses back
    to the record.  Hypotheses: the buffer is well formed with no pending back-patch (holds between
    frames) and its length fits a size_t. *)
 Theorem C03_frame_any_position : forall d b b',
@@ -254,3 +257,18 @@ Theorem C03_frame_any_position : forall d b b',
   exists m, dns_write d = Ok m /\ w_live b' = w_live b ++ be16b (Z.of_nat (length m)) ++ m.
 Proof. exact frame_any_position. Qed.
 Print Assumptions C03_frame_any_position.
+
+(* LEGACY QUERY BUILDERS for a name in ANY valid presentation text (trailing dot, escapes): what
+   ares_create_query / ares_mkquery return parses back to the record ares_dns_record_create_query()
+   built, with the name in canonical form; when the name already is canonical, serialising the parsed
+   record again gives the same octets.  A corollary of C03_roundtrip: the record the builder creates is
+   well formed whenever ares_split_dns_name accepts the name as a hostname. *)
+Theorem C03_query_builders : forall name cls type id rd udp bs,
+  owner_wf name -> 0 <= type < 65536 ->
+  create_query wfixed name cls type id rd udp = Ok bs ->
+  exists d d',
+    record_create_query name cls type (Z.land id 65535) (if rd =? 0 then 0 else ARES_FLAG_RD) (udp mod 2 ^ 64) = Ok d /\
+    dns_parse bs 0 = Ok d' /\ norm_parsed d' = norm_parsed (canon_rec d) /\
+    (Write_enc.canon name = name -> dns_write d' = Ok bs).
+Proof. exact query_builders_gen. Qed.
+Print Assumptions C03_query_builders.
